@@ -82,12 +82,10 @@ HARNESSES += [
      "bounds": "IP listener, a dropped 1-byte datagram (arbitrary content and source) followed by one arbitrary datagram of 0..56 bytes: the second is answered exactly as if it were the first (a datagram longer than the receive buffer is cut off and flagged, as by recvmsg)"},
     {"name": "listenerafterdrop47", "fn": S + "VerifC09ListenerAfterDrop47", "cfg": dict(LISTENER_CFG, unwind=dict(LISTENER_CFG["unwind"], **{S + "runIPServer": 5})), "install": LISTENER_INSTALL, "replay_overlay": RO, "native_feasible": native_feasible,
      "bounds": "same with a dropped 47-byte datagram", "thorough_only": True},
-    {"name": "listener2", "fn": S + "VerifC09Listener2", "cfg": dict(LISTENER_CFG, unwind=dict(LISTENER_CFG["unwind"], **{S + "runIPServer": 5})), "install": LISTENER_INSTALL, "replay_overlay": RO, "native_feasible": native_feasible,
-     "bounds": "IP listener, two arbitrary datagrams (the second is answered correctly whatever the first was)", "thorough_only": True},
 ]
 ASSUMPTIONS = ["socket and kernel-timestamp functions of the IP listener are redirected to adversary functions in the harness; counterexamples are re-solved under replayability side conditions (loopback source address, no forced I/O errors) and replayed through real loopback sockets against the real listener",
                "datagrams up to 56 bytes: too short to carry a valid NTS request, so every datagram longer than 48 bytes must stay unanswered; the authenticated branch and the SCION listener are not covered"]
 EXPLANATION = ""
 CLAIMED = True
 LEVEL_TEXT = "Bounded model checking of ntp.ValidateRequest against the predicate of the property text over every header and port, of the anti-reflection facts (no server-mode packet and no packet passing ValidateResponseMetadata is a valid request), of the reply header bytes the server builds, and of the real IP listener loop (runIPServer) against an adversarial socket: one arbitrary datagram, and a dropped 1-byte (thorough: 47-byte) datagram followed by an arbitrary one - exactly one reply, to the sender's address and port, for exactly the valid plain requests; counterexamples replayed against the real listener on loopback."
-LEVEL_NOTE = "IP listener only (the SCION listener is not encoded: C13 N/A); datagrams up to 56 bytes, so the NTS branch is entered only to be rejected (the authenticated branch is C11's server harness); two arbitrary datagrams (listener2) only in the thorough tier; socket/kernel-stamp functions are adversary stubs; reply fields are C06's."
+LEVEL_NOTE = "IP listener only (the SCION listener is not encoded: C13 N/A); datagrams up to 56 bytes, so the NTS branch is entered only to be rejected (the authenticated branch is C11's server harness); two fully arbitrary datagrams (listener2) were tried and the engine did not finish executing the second loop round within 20 minutes, so that harness is not registered: sequences are covered as 'dropped short datagram, then arbitrary datagram'; socket/kernel-stamp functions are adversary stubs; reply fields are C06's."
